@@ -68,6 +68,66 @@ class St:
         return self.frame.shape[0]
 
 
+# ---- exactness (which columns / expressions can differ in the last bit between two engines)
+INEXACT_FNS = {"sin", "cos", "tanh", "exp", "log", "sqrt", "expm1", "log1p", "arctan", "sinh", "cosh",
+               "sum", "mean", "std", "var", "median", "cumsum", "cumprod"}
+
+
+def expr_inexact(e, tainted):
+    """True if the value of the expression may differ in its last bit between two engines: it calls a transcendental
+    function or a float aggregate (summation order), or reads a column that does"""
+    t = e[0]
+    if t == "col":
+        return e[1] in tainted
+    if t in ("lit", "rawexpr"):
+        return False
+    if t == "bin":
+        return expr_inexact(e[2], tainted) or expr_inexact(e[3], tainted)
+    if t in ("neg", "not"):
+        return expr_inexact(e[1], tainted)
+    if t == "m":
+        if e[1] in INEXACT_FNS:
+            return True
+        return expr_inexact(e[2], tainted) or any(expr_inexact(a, tainted) for a in e[3] if a[0] not in ("list", "set", "dict", "raw"))
+    if t == "f":
+        return e[1] in INEXACT_FNS
+    return True
+
+
+def tainted_columns(node, memo=None):
+    """columns of the recipe node's result whose values may differ in the last bit between engines"""
+    if memo is None:
+        memo = {}
+    if id(node) in memo:
+        return memo[id(node)]
+    op = node["op"]
+    if op == "table":
+        r = set()
+    else:
+        src = tainted_columns(node["src"], memo)
+        if op in ("extend", "project"):
+            r = set(src) if op == "extend" else {c for c in src if c in (node.get("group_by") or [])}
+            for tgt, e in node["ops"]:
+                if expr_inexact(e, src):
+                    r.add(tgt)
+                else:
+                    r.discard(tgt)
+        elif op == "rename_columns":
+            mp = {old: new for new, old in node["map"]}
+            r = {mp.get(c, c) for c in src}
+        elif op == "map_columns":
+            mp = {old: new for old, new in node["map"]}
+            r = {mp.get(c, c) for c in src if mp.get(c, c) is not None}
+        elif op in ("natural_join", "concat_rows"):
+            r = set(src) | tainted_columns(node["right"], memo)
+        elif op == "convert_records":
+            r = {"*"} if src else set()
+        else:
+            r = set(src)
+    memo[id(node)] = r
+    return r
+
+
 def frame_kinds_ok(frame, kinds):
     return set(frame.columns) == set(kinds)
 
@@ -156,6 +216,13 @@ class Gen:
         if r < 0.8:
             a, ka = self.num(st, d + 1, None, nonnull)
             m = rng.choice(["abs", "neg", "sign", "floor", "ceil", "sin", "cos", "tanh", "sqrt_abs", "log_abs", "exp_b"])
+            if m in ("sign", "floor", "ceil"):
+                # a step function of a value two engines compute with different last bits is ill-conditioned
+                # (floor(tanh(19)) is 1 in numpy and 0 in SQLite's libm): only over exactly computed arguments
+                tt = tainted_columns(st.node)
+                if "*" in tt or expr_inexact(a, tt):
+                    self.cnt("step_function_over_inexact_argument_avoided")
+                    m = "abs"
             if m == "neg":
                 return ["neg", a], ka
             if m in ("abs", "sign"):
